@@ -15,7 +15,8 @@ from ..model import FuncInfo, ClassInfo, iter_own_nodes, strip_opt
 from ..absval import Abs
 from ..mutation import Mutations
 from ..termination import Termination
-from ..flow import same_expr
+from ..strshape import Shapes, t_text
+from ..flow import same_expr, atomic_facts
 
 
 def const_str(ctx, fn: FuncInfo, e: ast.AST, depth: int = 0) -> Optional[str]:
@@ -316,45 +317,86 @@ def const_is_empty(e: ast.AST) -> bool:
 
 
 def _prefix_rule(ctx, ind: ClassInfo):
+    """Abstract interpretation of the prefix strings (dznverif.strshape): blank-only continuation prefix, bullet prefix
+    starting with the glyph, and - for space indentation - equal widths of both as max-plus terms over
+    n = spaces_count and L = len(glyph)."""
     run = ctx.run
     post = ind.methods.get('__post_init__')
     if post is None:
         run.error('C18.prefix', ind.module.name, 'Indentizer', '__post_init__', 'Indentizer.__post_init__ vanished')
         return
-    abs_ = Abs(ctx.prog, ctx.cg, ctx.flow)
+    sh = Shapes(post.node, lambda name: const_str(ctx, post, ast.Name(id=name, ctx=ast.Load())))
     n = 0
-    rederived = False
-    for a in [x for x in iter_own_nodes(post.node) if isinstance(x, ast.Assign)]:
+    assigns = [x for x in iter_own_nodes(post.node) if isinstance(x, ast.Assign) and isinstance(x.targets[0], ast.Attribute)
+               and isinstance(x.targets[0].value, ast.Name) and x.targets[0].value.id == 'self']
+    assigns.sort(key=lambda x: (x.lineno, x.col_offset))
+
+    def block_of(node):
+        par = ctx.prog.parent(node)
+        for fld in ('body', 'orelse'):
+            blk = getattr(par, fld, None)
+            if isinstance(blk, list) and node in blk:
+                return blk
+        return []
+
+    space_bullets = []
+    for a in assigns:
         t = a.targets[0]
-        if not (isinstance(t, ast.Attribute) and isinstance(t.value, ast.Name) and t.value.id == 'self'):
-            continue
-        if t.attr == '_whitespace':
-            n += 1
-            v = a.value
-            ok, why = False, f'`{ast.unparse(v)[:50]}` is not whitespace-only'
-            if isinstance(v, ast.BinOp) and isinstance(v.op, ast.Mult):
-                s, k = (v.left, v.right) if const_str(ctx, post, v.left) is not None else (v.right, v.left)
-                if const_str(ctx, post, s) == ' ':
-                    if ast.unparse(k) == 'self.spaces_count':
-                        ok, why = True, 'prefix = SPACE * spaces_count'
-                    elif isinstance(k, ast.Call) and getattr(k.func, 'id', '') == 'len' and \
-                            ast.unparse(k.args[0]) == 'self._bulletized_indent':
-                        ok, why = True, 'continuation prefix re-derived from the width of the bullet prefix'
-                        rederived = True
-            elif const_str(ctx, post, v) == '\t':
-                ok, why = True, 'prefix = TAB'
-            run.add('C18.prefix', post.module.name, post.qualname, a, ok, why, node=a)
         if t.attr == '_bulletized_indent':
             n += 1
-            holes = [ast.unparse(x.value) for x in ast.walk(a.value) if isinstance(x, ast.FormattedValue)]
-            ok = isinstance(a.value, ast.JoinedStr) and any('glyph' in h for h in holes)
+            sh.attr_defs.pop('_bulletized_indent', None)
+            v = sh.string(a.value)
+            if v is None:
+                run.error('C18.prefix', post.module.name, post.qualname, a,
+                          f'bullet prefix expression `{ast.unparse(a.value)[:60]}` is outside the modelled string sub-language', node=a)
+                continue
+            ok = v.has_glyph and v.starts == 'glyph'
             run.add('C18.prefix', post.module.name, post.qualname, a, ok,
-                    'bullet prefix is built from the configured glyph' if ok else
-                    'bullet prefix does not contain the configured glyph', node=a)
-    run.add('C18.prefix', post.module.name, post.qualname, 'bullet continuation width', rederived,
-            'in bullet mode the continuation prefix is as wide as the bullet prefix' if rederived else
-            'in bullet mode the whitespace prefix is not re-derived from the bullet prefix: continuation lines '
-            'misalign when the glyph is wider than the indent')
+                    f'bullet prefix is the configured glyph padded to width {t_text(v.length)}' if ok else
+                    ('bullet prefix does not contain the configured glyph' if not v.has_glyph else
+                     'bullet prefix does not start with the glyph'), node=a)
+            facts = [(ast.unparse(c), p) for c, p in atomic_facts(ctx.flow.path_conditions(a))]
+            if any('SPACES' in tx and p for tx, p in facts):
+                space_bullets.append((a, v))
+    for a in assigns:
+        t = a.targets[0]
+        if t.attr == '_whitespace':
+            n += 1
+            # `self._bulletized_indent` inside the expression refers to the assignment preceding it in the same block
+            blk = block_of(a)
+            prev = [x for x in blk[:blk.index(a)] if x in assigns and x.targets[0].attr == '_bulletized_indent'] if a in blk else []
+            sh.attr_defs.pop('_bulletized_indent', None)
+            if prev:
+                sh.attr_defs['_bulletized_indent'] = prev[-1].value
+            v = sh.string(a.value)
+            if v is None:
+                run.error('C18.prefix', post.module.name, post.qualname, a,
+                          f'whitespace prefix expression `{ast.unparse(a.value)[:60]}` is outside the modelled string sub-language', node=a)
+                continue
+            run.add('C18.prefix', post.module.name, post.qualname, a, v.blank,
+                    f'continuation prefix is blank-only, width {t_text(v.length)}' if v.blank else
+                    f'`{ast.unparse(a.value)[:50]}` is not whitespace-only', node=a)
+    for a, bv in space_bullets:
+        blk = block_of(a)
+        later = [x for x in blk[blk.index(a) + 1:] if x in assigns and x.targets[0].attr == '_whitespace'] if a in blk else []
+        if not later:
+            run.add('C18.prefix', post.module.name, post.qualname, 'bullet continuation width', False,
+                    'in bullet mode the whitespace prefix is not re-derived from the bullet prefix: continuation lines '
+                    'misalign when the glyph is wider than the indent')
+            continue
+        sh.attr_defs['_bulletized_indent'] = a.value
+        wv = sh.string(later[-1].value)
+        if wv is None:
+            continue          # reported above
+        same = wv.length == bv.length
+        run.add('C18.prefix', post.module.name, post.qualname, 'bullet continuation width', same,
+                f'continuation prefix and bullet prefix have the same width {t_text(bv.length)} for every spaces_count n and glyph length L'
+                if same else
+                f'continuation prefix is {t_text(wv.length)} wide but the bullet prefix is {t_text(bv.length)} wide '
+                f'(n = spaces_count, L = glyph length): continuation lines misalign with the text after the glyph')
+    if not space_bullets:
+        run.add('C18.prefix', post.module.name, post.qualname, 'bullet continuation width', False,
+                'no bullet prefix is built for space indentation')
     if n < 4:
         run.error('C18.prefix', post.module.name, post.qualname, 'prefix assignments',
                   f'only {n} prefix assignments recognised (5 confirmed by hand)')
